@@ -53,6 +53,8 @@ def gen_random(rng: random.Random, cfgs: list[str]) -> dict:
                             rng.random() < 0.15])  # fmt: skip
             elif r < 0.86:
                 ops.append(["bad_release", rng.randint(0, 3)])
+            elif r < 0.9:
+                ops.append(["selfcancel"])
             else:
                 ops.append(["cp", rng.randint(1, 3)])
 
@@ -87,6 +89,33 @@ def sweep_cases(cfgs: list[str]):  # noqa: ANN201
                                     "cfg": cfg, "fast": fast, "actors": actors,
                                     "agents": [{"at": at, "place": place, "victim": victim}],
                                 }  # fmt: skip
+
+
+    # an uncontended acquire entered in a scope that is cancelled already (the cancel lands
+    # before the actor's first step, or between two of its steps): it raises and leaves the
+    # lock free for the actor that comes later
+    for cfg in cfgs:
+        for fast in (False, True):
+            for kind in ("acquire", "ctx"):
+                for d in (0, 1, 2):
+                    for at in range(0, d + 2):
+                        for place in ("before", "after"):
+                            for outside in (False, True):
+                                actors = [
+                                    {"mode": "scope", "ops": [["with", d, 1, kind, False]]},
+                                    {"mode": "scope", "ops": [["with", d + 4, 1, "acquire", False]]},
+                                ]
+                                yield {"cfg": cfg, "fast": fast, "outside": outside, "actors": actors,
+                                       "agents": [{"at": at, "place": place, "victim": 0}]}  # fmt: skip
+
+                    for outside in (False, True):
+                        # ... cancelled by the actor itself right before the call
+                        actors = [
+                            {"mode": "scope", "ops": [["cp", d], ["selfcancel"], ["with", 0, 1, kind, False]]},
+                            {"mode": "scope", "ops": [["with", d + 4, 1, "acquire", False]]},
+                        ]
+                        yield {"cfg": cfg, "fast": fast, "outside": outside, "actors": actors,
+                               "agents": []}  # fmt: skip
 
 
 def execute(case: dict) -> dict:
@@ -234,6 +263,12 @@ def execute(case: dict) -> dict:
 
                     if (lock.locked(), owner_id(), waiting()) != before:
                         viol.append(("refused-release-changed-state", {"actor": a.name}))
+                elif op[0] == "selfcancel":
+                    # the actor cancels its own scope and goes on without a checkpoint: the
+                    # next operation is entered in an already cancelled scope
+                    if a.mode == "scope":  # (a native self-cancel is a different story)
+                        a.cancel()
+                        window("acquire_entered_in_an_already_cancelled_scope")
                 elif op[0] == "with":
                     _, pre, hold, kind, reacquire = op
                     for _ in range(pre):
